@@ -19,6 +19,17 @@ func verifMkSlice(site int) []A {
 	return []A{A(verifNdInt(site + 1)), A(verifNdInt(site + 2)), A(verifNdInt(site + 3))}
 }
 
+// verifMkSlice2: as verifMkSlice with at most two elements
+func verifMkSlice2(site int) []A {
+	switch verifNdInt(site) {
+	case 0:
+		return nil
+	case 1:
+		return []A{A(verifNdInt(site + 1))}
+	}
+	return []A{A(verifNdInt(site + 1)), A(verifNdInt(site + 2))}
+}
+
 // C10 / C07 / C08 / C04: Parallel Task+Tasks, fail-fast and ContinueOnError
 func verifHarness_p01() {
 	ctx := verifNdCtx(false)
@@ -175,7 +186,7 @@ func verifHarness_p04() {
 func verifHarness_p03() {
 	ctx := verifNdCtx(false)
 	xs := verifMkSlice(10)
-	ys := verifMkSlice(20)
+	ys := verifMkSlice2(20)
 	verifAllow("X3", 3)
 	fails := 0
 	verifRefBegin()
@@ -214,7 +225,7 @@ func verifHarness_p03() {
 // C10: no-index Slice with an End hook
 func verifHarness_p07() {
 	ctx := verifNdCtx(false)
-	xs := verifMkSlice(10)
+	xs := verifMkSlice2(10)
 	verifAllow("X2", 5)
 	fails := 0
 	verifRefBegin()
@@ -235,6 +246,6 @@ func verifHarness_p07() {
 	} else {
 		verifAssert(verifCallCount("XE2") == 0, 5)
 	}
-	verifCover(len(xs) == 3 && fails == 0, 1)
+	verifCover(len(xs) == 2 && fails == 0, 1)
 	verifCover(fails > 0, 2)
 }
